@@ -130,7 +130,11 @@ def run(ck, F, E):
             calls = [c for c in mp.calls() if c.bb in arm]
             has_list = any(sfx(c.callee, "Program::list") for c in calls)
             ext = [c for c in calls if c.callee.endswith("::extend") and "output" in show(mp.expr(c.args[0]))]
-            ok = has_list and bool(ext)
+            # or line by line: `for line in self.program.list() { self.print(line) }`
+            from lib import call_names_deep
+            prints = [c for c in calls if (sfx(c.callee, "Interpreter::print") or (c.callee.endswith("Vec::push") and "output" in show(mp.expr(c.args[0]))))
+                      and "list" in call_names_deep(mp, mp.expr(c.args[1]))]
+            ok = has_list and (bool(ext) or bool(prints))
         ck.require(ok, "C04:LIST:prints-list", "LIST", "the LIST arm extends Interpreter.output with Program::list()",
                    "the LIST command no longer prints Program::list()", mp.span)
 
